@@ -4,7 +4,7 @@ connection's checkpoint to the target's dependencies; verdict = imported schemas
 well formed, combined schema conforms).  Tie: whole validator (reading generated import files from the snapshot)
 vs the Coq model on importing scenarios and single faults."""
 import random, json, collections
-import common, kernel, engine, imports as I
+import common, kernel, engine, imports as I, scenario as S
 
 LEVEL = "proof"
 
@@ -31,6 +31,149 @@ def kf_witness(ctx):
     return imported, native
 
 
+@__import__("impl").register
+def stitched_formulas(payload):
+    """validate the importing document, then read the dependency formula of every connection target out of
+    validator.schema: ["N", gate, [children]] for a checkpoint, ["L", [action ids]] for a comparison; action ids are
+    abstract (import base + id)"""
+    import json as js
+    from validation.schema_validator import SchemaValidator
+    from validation import utils
+    doc, targets, bases = payload["doc"], payload["targets"], payload["bases"]
+    v = SchemaValidator()
+    try:
+        errs = v.validate(json_string=js.dumps(doc))
+    except BaseException as e:  # noqa
+        return {"raise": repr(e)}
+    if errs:
+        return {"errors": errs[:3]}
+
+    def abstract_action(ref):
+        obj = v._resolve_global_ref(ref)
+        if obj is None or "id" not in obj:
+            return None
+        sid = utils.parse_schema_id(ref)
+        return (bases[sid] if sid is not None else 0) + obj["id"]
+
+    def tree(cp, depth=0):
+        if cp is None or depth > 30:
+            return ["L", []]
+        ch = []
+        for d in cp.get("dependencies", []):
+            if "compare" in d:
+                acts = []
+                for side in ("left", "right"):
+                    a = utils.action_ref_from_dependency_ref(d, side)
+                    if a is not None:
+                        x = abstract_action(a)
+                        if x is not None:
+                            acts.append(x)
+                ch.append(["L", acts])
+            elif "checkpoint" in d:
+                ch.append(tree(v._resolve_global_ref(d["checkpoint"]), depth + 1))
+        return ["N", cp.get("gate_type"), ch]
+    out = []
+    for (fname, kind, local) in targets:
+        ref = "schema:{%s}.%s:%d" % (fname, "action" if kind == "action" else "checkpoint", local)
+        obj = v._resolve_global_ref(ref)
+        if obj is None:
+            out.append(None)
+        elif kind == "action":
+            out.append(tree(v._resolve_global_ref(obj["depends_on"])) if "depends_on" in obj else ["L", []])
+        else:
+            out.append(tree(obj))
+    return {"trees": out}
+
+
+FORMULA_HEADER = I.COQ_HEADER_I + """
+Inductive ftree := FL (l : list nat) | FN (g : option gate) (ch : list ftree).
+Fixpoint formula (s : schema) (fuel : nat) (c : nat) : ftree :=
+  match fuel with
+  | 0 => FL []
+  | S f => match find_checkpoint s c with
+           | None => FL []
+           | Some cp => FN (cp_gate cp) (map (fun d => match d with
+                                                     | DCmp l _ r => FL (operand_action l ++ operand_action r)
+                                                     | DRef r => formula s f (r_id r) end) (cp_deps cp))
+           end
+  end.
+Fixpoint ftree_eqb (a b : ftree) : bool :=
+  match a, b with
+  | FL x, FL y => list_nat_eqb x y
+  | FN g ch, FN g' ch' => gate_opt_eqb g g' &&
+      (fix go (l l' : list ftree) : bool :=
+         match l, l' with [] , [] => true | x :: r, y :: r' => ftree_eqb x y && go r r' | _, _ => false end) ch ch'
+  | _, _ => false
+  end.
+(* the formula of a connection target in the combined schema: the target checkpoint itself, or the checkpoint the
+   target action now depends on *)
+Definition target_formula (s : schema) (is_action : bool) (t : nat) : ftree :=
+  if is_action then match find_action s t with
+                    | Some a => match a_dep a with Some r => formula s 40 (r_id r) | None => FL [] end
+                    | None => FL [] end
+  else formula s 40 t.
+"""
+
+
+def cq_tree(t):
+    if t[0] == "L":
+        return "(FL %s)" % S.cq_nats(t[1])
+    return "(FN %s %s)" % ("None" if t[1] is None else "(Some G_%s)" % t[1], S.cq_list(cq_tree(c) for c in t[2]))
+
+
+def formula_check(ctx, valid_items, pool):
+    """For every connection of every conformant importing scenario: the dependency formula the implementation ends up
+    with equals the model's (Model/Imports.v combine)."""
+    payloads, meta = [], []
+    for it in valid_items:
+        case = it.scenario
+        targets, bases = [], {}
+        for imp in case["imports"]:
+            bases[imp["file"]] = imp["base"]
+            for c in imp["conns"]:
+                targets.append((imp["file"], c["to"][0], c["to"][1], imp["base"]))
+        if not targets:
+            continue
+        payloads.append({"doc": it.doc, "targets": [(f, k, l) for (f, k, l, b) in targets], "bases": bases})
+        meta.append((it, targets))
+    if not payloads:
+        return 0, []
+    results = pool.call_many("stitched_formulas", payloads, chunk=4)
+    per_item = []
+    for (it, targets), res in zip(meta, results):
+        if "trees" not in res:
+            continue
+        rows = [((f, k, l), b + l, t) for (f, k, l, b), t in zip(targets, res["trees"]) if t is not None]
+        if rows:
+            per_item.append((it, rows))
+    files, index = [], []
+    CH = 12
+    for c0 in range(0, len(per_item), CH):
+        part = per_item[c0:c0 + CH]
+        lines = [FORMULA_HEADER]
+        checks = []
+        for j, (it, rows) in enumerate(part):
+            lines.append("Definition c%d := %s." % (j, I.to_coq_i(it.scenario)))
+            lines.append("Definition s%d := combine (fst c%d) (snd c%d)." % (j, j, j))
+            for (tgt, aid, t) in rows:
+                checks.append("ftree_eqb (target_formula s%d %s %d) %s" % (j, "true" if tgt[1] == "action" else "false", aid, cq_tree(t)))
+                index.append((it, tgt, t))
+        lines.append("Definition checks : list bool := [%s]." % ";\n  ".join(checks))
+        lines.append("Fixpoint failing (i : nat) (l : list bool) : list nat := match l with [] => [] | b :: r => (if b then [] else [i]) ++ failing (S i) r end.")
+        lines.append("Eval vm_compute in (failing 0 checks).")
+        files.append(("formulas_%03d" % (c0 // CH), "\n".join(lines) + "\n", len(checks)))
+    outs = ctx.coq_eval_many([(n, b) for (n, b, _) in files])
+    bad, off = [], 0
+    for (n, b, cnt), (ok, out) in zip(files, outs):
+        fl = common.parse_coq_nat_list(out) if ok else None
+        if fl is None:
+            ctx.notes.append("formula comparison could not be evaluated: " + out[-400:])
+            return len(index), None
+        bad += [index[off + i] for i in fl]
+        off += cnt
+    return len(index), bad
+
+
 def run(ctx):
     ok, thms, log = kernel.proof_step(ctx, regen=("tables",))
     rng = random.Random(ctx.seed)
@@ -53,10 +196,21 @@ def run(ctx):
         it.scenario = {"native": it.scenario["native"],
                        "imports": [{k: v for k, v in imp.items() if k != "builder"} for imp in it.scenario["imports"]]}
     engine.report(ctx, items, "T3 correspondence: whole validator with generated import files vs Coq model (Model/Imports.v)")
+    # what stitching leaves behind: the dependency formula of every connection target
+    import impl
+    pool = impl.Pool(ctx)
+    with_conns = [it for it in items if it.kind == "valid" and it.res["outcome"] == "accept" and any(imp["conns"] for imp in it.scenario["imports"])]
+    n_formulas, bad_formulas = formula_check(ctx, with_conns[:(70 if ctx.tier == "quick" else 10 ** 9)], pool)
+    if bad_formulas is None:
+        kernel.obligation_violation(ctx, thms, "; ".join(ctx.notes[-2:]), {"correspondence": "Coq evaluation of stitched formulas failed"})
+    else:
+        for (it, tgt, tree) in bad_formulas[:3]:
+            ctx.violation({"what": "after validation a connection's target does not depend on exactly (its previous dependencies AND the added checkpoint): the implementation's stitched dependency formula differs from the model's",
+                           "target": list(tgt), "implementation_formula": tree, "document": it.doc, "imports": it.doc.get("imports"),
+                           "scenario": {"native": it.scenario["native"], "imports": [{k: v for k, v in imp.items() if k != "builder"} for imp in it.scenario["imports"]]}})
+    ctx.coverage["stitched_formulas_compared"] = n_formulas
     # known finding: replay its witness
     imported, native = kf_witness(ctx)
-    import impl
-    pool = impl.Pool(ctx, 2)
     r_imp, r_nat = pool.validate_many([imported, native])
     pool.close()
     if r_imp["outcome"] == "accept" and r_nat["outcome"] == "accept":
